@@ -216,8 +216,18 @@ Qed.
 Lemma isna_refines p : m_isna p = spec_isna (abs p).
 Proof. reflexivity. Qed.
 
+Lemma masked_diffs : forall (sv : list bool) ds,
+  forallb2 (fun (s : bool) d => s || (d =? 0)) sv ds = true ->
+  map2 (fun d (v : bool) => if v then d else 0) ds sv = ds.
+Proof.
+  induction sv as [|s sv IH]; intros [|d ds] H; cbn [forallb2] in H; try discriminate; try reflexivity.
+  apply andb_true_iff in H as [H1 H]. rewrite map2_cons, (IH ds H). f_equal.
+  destruct s; [reflexivity|]. simpl in H1. apply Nat.eqb_eq in H1. congruence.
+Qed.
+
 Lemma fold_lengths_ok : forall cs sch, sch <> [] -> Forall (chunk_ok sch) cs ->
-  fold_right (fun c acc => res_bind (m_transpose_sl c) (fun a => res_bind acc (fun t => Ok (diffs (ls_offs a) ++ t))))
+  fold_right (fun c acc => res_bind (m_transpose_sl c) (fun a => res_bind acc (fun t =>
+                Ok (map2 (fun d (v : bool) => if v then d else 0) (diffs (ls_offs a)) (ls_valid a) ++ t))))
              (Ok []) cs
   = Ok (concat (map (fun c => map (@length val) (nth 0 (chunk_cols c) [])) cs)).
 Proof.
@@ -227,9 +237,10 @@ Proof.
   destruct (chunk_first_field sch c Hne Hwf) as (f0 & t & Ef).
   assert (Hf0 : field_ok (svalid c) (farr f0))
     by (apply (chunk_field_ok sch c f0); [unfold chunk_ok; tauto|rewrite Ef; left; reflexivity]).
-  unfold m_transpose_sl. rewrite Ef. cbn [res_bind ls_offs]. f_equal. f_equal.
+  unfold m_transpose_sl. rewrite Ef. cbn [res_bind ls_offs ls_valid]. f_equal. f_equal.
   unfold chunk_cols. rewrite Ef. cbn [map nth]. rewrite (field_rows_lengths _ _ Hf0).
-  apply diffs_rebase. destruct Hf0 as (Hw & _). apply wf_larr_b_spec in Hw. tauto.
+  destruct Hf0 as (Hw & _ & Hnm). apply wf_larr_b_spec in Hw as (_ & _ & Hm & _).
+  rewrite (diffs_rebase _ Hm). apply masked_diffs. exact Hnm.
 Qed.
 
 Lemma first_col_abs p : ctype p <> [] ->
@@ -274,7 +285,12 @@ Proof.
     destruct Hc as (Hwf & Hrest).
     destruct (chunk_first_field (ctype p) c Hne Hwf) as (f0 & t & Ef). rewrite Ef. simpl.
     unfold spec_list_lengths in HL. unfold m_list_lengths in HL. rewrite Ec in HL. simpl in HL.
-    unfold m_transpose_sl in HL. rewrite Ef in HL. simpl in HL. rewrite app_nil_r in HL. exact HL.
+    unfold m_transpose_sl in HL. rewrite Ef in HL. simpl in HL. rewrite app_nil_r in HL.
+    rewrite masked_diffs in HL; [exact HL|].
+    assert (Hf0 : field_ok (svalid c) (farr f0))
+      by (apply (chunk_field_ok (ctype p) c f0); [unfold chunk_ok; tauto|rewrite Ef; left; reflexivity]).
+    destruct Hf0 as (Hw & _ & Hnm). apply wf_larr_b_spec in Hw as (_ & _ & Hm & _).
+    rewrite (diffs_rebase _ Hm). exact Hnm.
   - (* several chunks: cumulative sum of the lengths *)
     rewrite HL. simpl. rewrite diffs_cumsum. reflexivity.
 Qed.
